@@ -229,6 +229,29 @@ theorem category_view_loses_merchant :
     (allMerchants joeRows).length = 1 ∧ categoryViewTotal joeRows = 250 ∧ analysedTotal joeRows = 1250 := by
   decide +kernel
 
+/-! #### amounts that are not whole cents
+`ytd` is an `Int` number of an ARBITRARY unit, so `category_view_sums` covers amounts with any number of decimals (the harness
+scales a case by the power of ten at which all its amounts are whole: cents, or 10⁻³ … 10⁻⁶ for fuel / converted-currency /
+per-mille-fee amounts).  What it needs is that the view holds each merchant's total AS ANALYSED.  A report that re-rounds the
+embedded totals (say to the cent, "for display") has distinct ids and all merchants and still does not add up: -/
+
+/-- embed each merchant's ytd rounded to a multiple of `q` units -/
+def reRound (q : Int) (rows : List MRow) : List MRow := rows.map fun r => { r with ytd := (r.ytd + q / 2) / q * q }
+
+/-- unit 10⁻⁴: a 0.004 fee, a 0.0049 fee, 183.4449 of fuel -/
+def feeRows : List MRow :=
+  [⟨"Fee_A".toList, "Fees".toList, "Bank".toList, 40, 1⟩, ⟨"Fee_B".toList, "Fees".toList, "Bank".toList, 49, 1⟩,
+   ⟨"Fuel".toList, "Transport".toList, "Fuel".toList, 1834449, 1⟩]
+
+example : idsDistinct feeRows = true ∧ categoryViewTotal feeRows = 1834538 ∧ analysedTotal feeRows = 1834538 := by decide +kernel
+
+/-- totals re-rounded to the cent (100 units of 10⁻⁴): every merchant is there, the ids are distinct, and the category sums give
+183.44 where 183.4538 was analysed — the clause "per-category sums add up to the analysed totals" needs the totals unrounded -/
+theorem rerounded_totals_do_not_add_up :
+    idsDistinct (reRound 100 feeRows) = true ∧ (allMerchants (reRound 100 feeRows)).length = 3 ∧
+    categoryViewTotal (reRound 100 feeRows) = 1834400 ∧ analysedTotal feeRows = 1834538 := by
+  decide +kernel
+
 /-! ### figures (D12e) -/
 
 def d12eWitness : List FTxn :=
